@@ -29,7 +29,7 @@ fn base(name: &str) -> Profile {
         worker_kinds: vec![wk(1), wk(2)], initial_workers: vec![0, 1], max_connects: 0,
         classes: vec![class(10_000), class(20_000)],
         submits: vec![arr(&[1, 2, 3], 0, 0)], max_submits: 1, opens: 0, losses: 0, cancels: 0,
-        fails: 0, launch_fails: 0, stops: 0, ticks: 0, forgets: 0, drain: true, prunes: 0, queue_events: 0,
+        fails: 0, launch_fails: 0, stops: 0, ticks: 0, forgets: 0, drain: true, prunes: 0, queue_events: 0, slow_stop: false,
     }
 }
 
@@ -151,6 +151,29 @@ pub fn get(name: &str) -> Option<Profile> {
             initial_workers: vec![0],
             submits: vec![arr(&[1, 2], 0, 0), arr(&[1, 2, 3], 0, 0), arr(&[1], 0, 9), arr(&[1, 2], 0, 0)],
             max_submits: 4, cancels: 2, pf_max: 2, max_connects: 1,
+            ..base(name)
+        },
+        // several clients that wait for their job (`submit --wait`) and leave as soon as it is reported complete, while others
+        // still wait
+        "waiters" => Profile {
+            submits: vec![
+                SubmitSpec { stream: true, ..arr(&[1], 0, 0) },
+                SubmitSpec { stream: true, ..arr(&[1, 2], 0, 0) },
+                SubmitSpec { stream: true, ..arr(&[1], 0, 0) },
+                SubmitSpec { stream: true, ..arr(&[1], 1, 0) },
+            ],
+            max_submits: 5, fails: 1, cancels: 1,
+            ..base(name)
+        },
+        // a 3-cpu worker, tasks of 2 cpus and of 1 cpu from three jobs: a canceled task whose process is still alive makes the
+        // worker reject the next 2-cpu task (request shape blocked); the shape must be re-enabled when the resources come back,
+        // also when another task ends in between without freeing enough
+        "blocked" => Profile {
+            worker_kinds: vec![wk(3)],
+            initial_workers: vec![0],
+            classes: vec![class(20_000), class(10_000)],
+            submits: vec![arr(&[1], 0, 0), arr(&[1, 2], 1, 0), arr(&[1], 0, 0), arr(&[1, 2], 0, 0)],
+            max_submits: 4, cancels: 2, fails: 1, pf_max: 1, slow_stop: true,
             ..base(name)
         },
         // pre-sent tasks with two variants of different size, called back and given back to the same worker
